@@ -446,8 +446,9 @@ CHECKS['C08'] = dict(
          'ones broken by a constant, power, self-product, sin/exp/sqrt, denominator, degree-one ratio, product of two '
          'components, edits that vanish when two same-kind components are identified, integrands or single integrals '
          'without an argument group, non-linear parts that cancel across two regions; linear ones written with '
-         'non-linear summands that cancel inside one integrand; 2D/3D, boundary terms) preceded on every seed by a '
-         'fixed corpus of 96 forms, and '
+         'non-linear summands that cancel inside one integrand, or with several floating-point contributions to one '
+         'monomial - floats are exchanged as exact rationals; 2D/3D, boundary terms) preceded on every seed by a '
+         'fixed corpus of 120 forms, and '
          'an oracle whose ground truth is known by construction and confirmed by instantiating every function (each '
          'component separately) with rich explicit polynomials and testing joint additivity and homogeneity exactly '
          'at rational points; it flags false accepts, false rejects and stray exceptions.',
